@@ -13,7 +13,8 @@ class C02(Spec):
     header_words = ('keys', 'kind', 'cmpmode')
     rule = ('cases = corpus + one case per edge of the breadth-first closure of the Coq model of the red-black tree '
             '(all shapes and colourings reachable with 7 elements, keys 0 0 1 1 2 2 3 and 3 1 0 2 1 3 0, in the quick tier; '
-            '8 and 9 elements in the thorough tier; insert, erase by key, height) + seeded random histories (up to ~60 '
+            'in addition 8 elements with duplicate and with distinct keys and 6 equal keys in the thorough tier; insert with '
+            'and without hint, erase by key, height) + seeded random histories (up to ~60 '
             'nodes in the quick tier, ~250 in the thorough tier, few distinct keys, ascending/descending/zigzag fills, '
             'fill-and-drain); a case is non-trivial when its model trace has at least two completed operations; '
             'distinct = distinct (header, operations) text')
@@ -69,18 +70,19 @@ class C02(Spec):
         return None
 
     def closure(self, tier):
-        if tier == 'quick':
-            scopes = [[0, 0, 1, 1, 2, 2, 3], [3, 1, 0, 2, 1, 3, 0]]
-        else:
-            scopes = [[0, 0, 1, 1, 2, 2, 3, 3], [3, 1, 0, 2, 1, 3, 0, 2, 1], [0, 0, 0, 0, 0, 0, 0, 0]]
+        # (keys, also with cmpmode 1)
+        scopes = [([0, 0, 1, 1, 2, 2, 3], True), ([3, 1, 0, 2, 1, 3, 0], True)]
+        if tier != 'quick':
+            scopes += [([0, 0, 1, 1, 2, 2, 3, 3], False), ([0, 0, 0, 0, 0, 0], False),
+                       ([0, 1, 2, 3, 4, 5, 6, 7], False)]
         cases, tot = [], dict(states=0, transitions=0, closed=True)
-        for keys in scopes:
+        for keys, both in scopes:
             cs, st = self.bfs(['rb', 3000000, 'rb'] + keys)
-            cases += cs
+            cases += T.with_cmpmodes(cs) if both else cs
             tot['states'] += st.get('states', 0)
             tot['transitions'] += st.get('transitions', 0)
             tot['closed'] = tot['closed'] and st.get('closed', False)
-        return T.with_cmpmodes(cases), tot
+        return cases, tot
 
     def random_cases(self, tier, seed):
         rnd = random.Random(seed * 104729 + 202)
